@@ -1,7 +1,7 @@
 """C01 - parent and children links always describe one consistent forest (E1, invariant on every state)."""
 from .. import core, e1run
 
-KINDS = ("mixin", "light", "node", "anynode", "symlink", "mixed", "cross",
+KINDS = ("mixin", "light", "node", "anynode", "symlink", "mixed", "cross", "symlight",
          # user classes with their own comparison / truth / container methods are node classes too
          "trap:eq", "trap:light:eq", "trap:all", "trap:light:all")
 P2 = ("_pre_detach", "_pre_attach")
@@ -21,7 +21,7 @@ def configs(tier):
 
     for a in (0, 1):
         for kind in KINDS:
-            main = kind in ("mixin", "light", "cross")
+            main = kind in ("mixin", "light", "cross", "symlight")
             if not main and KINDS.index(kind) % 2 != a:
                 continue  # the other classes alternate between the two assertion settings
             deep = (kind, a) in (("mixin", 0), ("light", 1))
@@ -36,6 +36,14 @@ def configs(tier):
                     add(kind=kind, n=4, cfg=dict(CFG), hidden=deep, d=1 if deep else 2, persistent=P2, assertions=a)
                 else:
                     add(kind=kind, n=4, cfg=dict(CFG, extras=False), d=1, persistent=P2, assertions=a)
+        # hooks that READ the whole forest (parent, children of every node) at every invocation - a validating hook
+        # typically looks at its new parent's children
+        for kind in (("mixin", "light")[a:a + 1] if quick else ("mixin", "light", "node")):
+            add(kind=kind, n=3, cfg=dict(CFG, extras=False), d=1, persistent=P2, assertions=a, snap=True,
+                name="%s N=3 d<=1+persist, hooks read the forest A=%d" % (kind, a))
+            if not quick:
+                add(kind=kind, n=4, cfg=dict(CFG, extras=False, nonnode=False), d=1, assertions=a, snap=True,
+                    name="%s N=4 d<=1, hooks read the forest A=%d" % (kind, a))
         # persistent vetoes of the children bracket hooks recurse without bound in the current roll-back
         # code: explored at N=3 under a lowered recursion limit (DESIGN 2.1)
         for kind in ("mixin", "light"):
@@ -57,7 +65,8 @@ def configs(tier):
                 add(kind=kind, n=4, cfg=dict(CFG, extras=False, read=False, nonnode=False, L=2 if quick else 4), assertions=0,
                     reenter=True, name="%s N=4 hooks that detach a node re-entrantly A=0" % kind)
         # the class of the exception a hook raises is part of the alphabet (TreeError / LoopError subclasses ...)
-        flav = (("mixin", "tree"), ("light", "loop")) if quick else [(k, f) for k in ("mixin", "light", "node") for f in ("tree", "loop", "value", "attr")]
+        flav = (("mixin", "tree"), ("light", "loop"), ("mixin", "assert"), ("light", "stopiter")) if quick else [
+            (k, f) for k in ("mixin", "light", "node") for f in ("tree", "loop", "value", "attr", "assert", "recursion", "stopiter", "key")]
         for kind, fl in flav:
             add(kind=kind, n=3, cfg=dict(CFG, extras=False), d=1 if quick else 2, persistent=P2, assertions=a, flavour=fl)
         if not quick:
